@@ -233,11 +233,11 @@ pub fn base_builder(cfg: &Cfg) -> tower_resilience_circuitbreaker::CircuitBreake
     }
 }
 
-async fn drive<C>(mut cb: CircuitBreaker<Probe, C>, cfg: Cfg, w: Arc<crate::world::World>, obs: Arc<Mutex<Vec<Obs>>>)
-where
-    C: tower_resilience_circuitbreaker::classifier::FailureClassifier<Resp, PErr> + Send + Sync + 'static,
-{
-    let map = map_err;
+macro_rules! drive_body {
+    ($cb:ident, $cfg:ident, $w:ident, $obs:ident) => {{
+        let mut cb = $cb;
+        let (cfg, w, obs) = ($cfg, $w, $obs);
+        let map = map_err;
     for (i, st) in cfg.steps.iter().enumerate() {
         let t0 = w.now();
         let mut outcome = None;
@@ -256,7 +256,7 @@ where
                 w.log(Ev::Arrive { req: id });
                 let before = lock(&w.st).log.len();
                 let o = crate::actors::do_call(&w, &mut cb, req, false, &map).await;
-                invoked = lock(&w.st).log[before..].iter().any(|r| matches!(r.ev, Ev::InnerEnter { .. }));
+                invoked = lock(&w.st).log[before..].iter().any(|r| matches!(r.ev, Ev::InnerEnter { req, .. } if req == id));
                 outcome = Some(o);
             }
             StepK::Wait(d) => tokio::time::sleep(Duration::from_micros(*d)).await,
@@ -271,6 +271,26 @@ where
         let t1 = w.now();
         lock(&obs).push(Obs { step: i, t0, t1, st_async, st_sync, is_open, st_metrics: st_u8(m.state), invoked, outcome, metrics_total: m.total_calls });
     }
+    }};
+}
+
+async fn drive<C>(cb: CircuitBreaker<Probe, C>, cfg: Cfg, w: Arc<crate::world::World>, obs: Arc<Mutex<Vec<Obs>>>)
+where
+    C: tower_resilience_circuitbreaker::classifier::FailureClassifier<Resp, PErr> + Send + Sync + 'static,
+{
+    drive_body!(cb, cfg, w, obs)
+}
+
+/// The same driver on the variant with a fallback (the fallback answers with src = 97, which the
+/// model reads as "rejected").
+async fn drive_fb<C>(cb: CircuitBreaker<Probe, C>, cfg: Cfg, w: Arc<crate::world::World>, obs: Arc<Mutex<Vec<Obs>>>)
+where
+    C: tower_resilience_circuitbreaker::classifier::FailureClassifier<Resp, PErr> + Send + Sync + 'static,
+{
+    let cb = cb.with_fallback(|req: Req| -> futures::future::BoxFuture<'static, Result<Resp, PErr>> {
+        Box::pin(async move { Ok(Resp { serial: 0, req_id: req.id, payload: req.payload, src: 97 }) })
+    });
+    drive_body!(cb, cfg, w, obs)
 }
 
 pub fn run(cfg: &Cfg, seed: u64) -> (Arc<crate::world::World>, Vec<Obs>, crate::sim::SimStats) {
@@ -292,6 +312,11 @@ pub fn run(cfg: &Cfg, seed: u64) -> (Arc<crate::world::World>, Vec<Obs>, crate::
         // a sibling breaker built by a second `layer()` call on the same layer value: it has its own
         // circuit, so whatever happens to it (failures, force_open) must not show in the breaker under test
         let sibling = seed % 3 == 0;
+        // the variant with a fallback has its own copies of reset / force_* / state / metrics
+        let with_fallback = (seed >> 4) % 4 == 0;
+        if with_fallback {
+            w.note("breaker driven through with_fallback()");
+        }
         macro_rules! sibling_actor {
             ($layer:expr) => {{
                 if sibling {
@@ -317,12 +342,12 @@ pub fn run(cfg: &Cfg, seed: u64) -> (Arc<crate::world::World>, Vec<Obs>, crate::
             let layer = configure!(base_builder(cfg), cfg).failure_classifier(custom_classify).build();
             let cb = layer.layer(w.probe(1));
             sibling_actor!(layer);
-            boxed(drive(cb, cfg2, w.clone(), obs2))
+            if with_fallback { boxed(drive_fb(cb, cfg2, w.clone(), obs2)) } else { boxed(drive(cb, cfg2, w.clone(), obs2)) }
         } else {
             let layer = configure!(base_builder(cfg), cfg).build();
             let cb = layer.layer(w.probe(1));
             sibling_actor!(layer);
-            boxed(drive(cb, cfg2, w.clone(), obs2))
+            if with_fallback { boxed(drive_fb(cb, cfg2, w.clone(), obs2)) } else { boxed(drive(cb, cfg2, w.clone(), obs2)) }
         };
         let a = sim.actor(0, move || fut);
         sim.start_at(0, a);
@@ -589,6 +614,9 @@ pub fn scenario(sseed: u64, _tier: Tier) -> Report {
     rep.count("sibling_breaker_inner_calls", sib);
     if sib > 0 {
         rep.count("scenarios_with_sibling_breaker", 1);
+    }
+    if full_log.iter().any(|r| matches!(&r.ev, Ev::Note { what } if what.contains("with_fallback"))) {
+        rep.count("scenarios_on_the_fallback_variant", 1);
     }
     rep.log = if rep.violations.is_empty() { vec![] } else { full_log };
     rep
